@@ -458,6 +458,42 @@ def refBody : Stmt := block [
 def refShape : Shape :=
   { trialInit := -1, resolveInit := false, earlyReturn := true, returnsResults := true, body := refBody }
 
+/-! ### the clamp of the presolve pass (fix 7d8c4ce1) as DATA
+
+`max_back = max(int(<minuend> - <subtrahend>) - 1, 0)` and `(c, min(max(b, 0), max_back))` in
+`_compute_next_timestep_and_run_presolve_controls_and_rules`: WHICH two quantities are subtracted is regenerated by the
+translator into `Gen/RunLoopShape.lean` (`Gen.clampShape`). -/
+
+inductive Quantity where
+  | tentativeTime     -- `self._wn.sim_time`
+  | prevAcceptedTime  -- `self._wn._prev_sim_time`
+  | hydraulicStep     -- `self._hydraulic_timestep`
+  | zero              -- a literal 0 / nothing subtracted
+  deriving DecidableEq, Repr
+
+structure ClampShape where
+  minuend : Quantity
+  subtrahend : Quantity
+  /-- `min(max(b, 0), max_back)` applied to every `(c, b)` on non-first steps, `max_back = max(int(.) - 1, 0)` -/
+  lowerZero : Bool
+  minusOne : Bool
+  deriving DecidableEq, Repr
+
+def refClampShape : ClampShape :=
+  { minuend := .tentativeTime, subtrahend := .prevAcceptedTime, lowerZero := true, minusOne := true }
+
+def Quantity.eval (cur prev hyd : Int) : Quantity → Int
+  | .tentativeTime => cur
+  | .prevAcceptedTime => prev
+  | .hydraulicStep => hyd
+  | .zero => 0
+
+/-- the clamped backtrack the pass uses, for a clamp of shape `sh` at tentative time `cur`, previous accepted time `prev` -/
+def clampWith (sh : ClampShape) (cur prev hyd b : Int) : Int :=
+  let span := sh.minuend.eval cur prev hyd - sh.subtrahend.eval cur prev hyd
+  let maxBack := max (span - (if sh.minusOne then 1 else 0)) 0
+  min (if sh.lowerZero then max b 0 else b) maxBack
+
 /-! ### the trace world used by the correspondence driver
 
 The hidden state is the three streams of answers observed on the real run (or chosen by a generator):
